@@ -81,12 +81,28 @@ pub fn config(k: usize, scale: usize) -> (&'static str, VConfig<u64>) {
             c.max_pnl_trader = 1_000;
             "tight max pool amount, reserve and pnl factors"
         }
+        8 => {
+            // the factor above the optimal usage is *below* the base factor (no additional slope), and the optimal usage is low
+            // enough to be exceeded by the positions of the alphabet
+            c.kink = BorrowingFeeKinkModelParamsForOneSide::builder().optimal_usage_factor(500).base_borrowing_factor(4).above_optimal_usage_borrowing_factor(1).build();
+            "kink borrowing model with the above-optimal factor below the base factor, low optimal usage"
+        }
+        9 => {
+            // no fees at all, symmetric position impact: whatever an open pays as negative impact can come back as positive
+            // impact on the close, so only the rounding of the impact amounts decides who gains
+            c.swap_fee = FeeParams::builder().fee_receiver_factor(0).positive_impact_fee_factor(0).negative_impact_fee_factor(0).build();
+            c.order_fee = FeeParams::builder().fee_receiver_factor(0).positive_impact_fee_factor(0).negative_impact_fee_factor(0).build();
+            c.liquidation = LiquidationFeeParams::builder().factor(0).receiver_factor(0).build();
+            c.position_impact = PriceImpactParams::builder().exponent(U).positive_factor(3).negative_factor(3).build();
+            c.position = PositionParams::new(U, U, 100, 2_000, 2_000, 1_000);
+            "zero fees, symmetric position impact, wide impact caps"
+        }
         _ => unreachable!(),
     };
     (name, c)
 }
 
-pub const N_CONFIGS: usize = 8;
+pub const N_CONFIGS: usize = 10;
 
 /// (actions, probes, start states) for a scale: 0 = realistic amounts, 1 = tiny token amounts
 fn world(k: usize, scale: usize, thorough: bool, extra: &[u128]) -> (Vec<Act>, Probes, Vec<St>) {
